@@ -75,7 +75,7 @@ def run(ctx):
             a = pos.get(c, 0) + r.randint(0, 6)
             b = a + r.randint(1, 9)
             pos[c] = a + 1
-            rows.append((c, a, b, "n%d" % len(rows), r.randint(0, 12), r.choice("+-")))
+            rows.append((c, a, b, "n%d" % len(rows), r.randint(0, 12), r.choice("+-+-.")))
         return names, rows
 
     def bed6(rows):
@@ -120,6 +120,10 @@ def run(ctx):
         dense = pile.to_dict()
         ref["under"] = [np.asarray(dense[c][a:b]).tolist() for c, a, b, *_ in rows]
         ref["under_mean"] = float(np.mean(np.concatenate([np.asarray(dense[c][a:b]) for c, a, b, *_ in rows]))) if rows else None
+        def rows_under(v):
+            return [np.asarray(x.to_array() if hasattr(x, "to_array") else x).tolist() for x in v]
+        ref["under_mean0"] = np.asarray(np.mean(pile[gi], axis=0))           # intervals of unequal length: column j averages the intervals that reach j
+        ref["under_stranded"] = rows_under(pile[genome.get_intervals(t, stranded=True)])
         wit = {"rows": rows, "seqs": seqs, "seed": case["seed"]}
         all_cuts = list(cutsets(n)) if n <= nmax else [tuple(sorted(r.sample(range(1, n), r.randint(0, min(n - 1, 12))))) for _ in range(12)] + [(), tuple(range(1, n))]
         for cuts in all_cuts:
@@ -171,6 +175,18 @@ def run(ctx):
             g = bnp.compute(under)
             g = [np.asarray(x.to_array() if hasattr(x, "to_array") else x).tolist() for x in g]
             chk("pipeline:values-under-intervals", g == ref["under"], g[:4], ref["under"][:4])
+            mk_iv = lambda: genome.get_intervals(NpDataclassStream(iter(pieces(t.astype(Interval), cuts)), dataclass=Interval))
+            g = np.asarray(bnp.compute(np.mean(mk_iv().get_pileup()[mk_iv()], axis=0)))
+            chk("pipeline:mean(axis=0)-under-intervals", same(g, ref["under_mean0"]), g.tolist(), ref["under_mean0"].tolist())
+            sst = genome.get_intervals(NpDataclassStream(iter(pieces(t, cuts)), dataclass=Bed6), stranded=True)
+            g = rows_under(bnp.compute(mk_iv().get_pileup()[sst]))
+            chk("pipeline:values-under-stranded-intervals", g == ref["under_stranded"], g[:4], ref["under_stranded"][:4])
+            # the line re-chunker behind read_chunks(n_lines=...)
+            from bionumpy.io.parser import chunk_lines
+            cl = list(chunk_lines(iter(pieces(t, cuts)), m))
+            back = [str(x) for c in cl for x in c.name.tolist()]
+            chk("chunk_lines:order+content", back == [x[3] for x in rows], back, [x[3] for x in rows])
+            chk("chunk_lines:sizes", all(len(c) == m for c in cl[:-1]) and sum(len(c) for c in cl) == n, [len(c) for c in cl], "all but last == %d" % m)
         ctx.count("datasets")
 
     def file_case(case):
